@@ -74,3 +74,28 @@ Qed.
 (* the other design loses a terminate() that lands while the evaluation thread is inside the predicate *)
 Theorem cached_only_design_refuted : prun false true false (mkP false false) [PTerminate; PThreadStore false; PEval] = [false].
 Proof. reflexivity. Qed.
+
+(* ---- PRM's best cost *)
+Lemma brun_stores : forall cs b, brun (Some b) (map BStore cs) = Some (fold_left Nat.min cs b).
+Proof. induction cs as [|c t IH]; intros b; [reflexivity|]. cbn [map]. unfold brun in *. cbn [fold_left bstep]. apply IH. Qed.
+Lemma fold_min_spec : forall cs b, let m := fold_left Nat.min cs b in m <= b /\ Forall (fun c => m <= c) cs /\ (m = b \/ In m cs).
+Proof.
+  induction cs as [|c t IH]; intros b; cbn [fold_left].
+  - split; [lia|]. split; [constructor|left; reflexivity].
+  - destruct (IH (Nat.min b c)) as (H1 & H2 & H3). cbv zeta in *. split; [lia|]. split.
+    + constructor; [lia|exact H2].
+    + destruct H3 as [H3|H3]; [|right; right; exact H3]. destruct (Nat.min_spec b c) as [(_ & E)|(_ & E)]; [left; rewrite H3; exact E|right; left; rewrite H3, E; reflexivity].
+Qed.
+(* reset first, then any number of stores by the solution thread (whatever was in the variable before, NaN included): the value
+   solve() reads after the join is the cost of one of the paths found, and no path found was cheaper *)
+Theorem best_cost_kept : forall s0 c cs,
+  exists m, brun s0 (BInit :: map BStore (c :: cs)) = Some m /\ Forall (fun x => m <= x) (c :: cs) /\ In m (c :: cs).
+Proof.
+  intros s0 c cs. unfold brun. cbn [fold_left bstep map]. fold (brun (Some c) (map BStore cs)). rewrite brun_stores.
+  destruct (fold_min_spec cs c) as (H1 & H2 & H3). cbv zeta in *. exists (fold_left Nat.min cs c). split; [reflexivity|]. split.
+  - constructor; assumption.
+  - destruct H3 as [H3|H3]; [left; symmetry; exact H3|right; exact H3].
+Qed.
+(* the pinned order (thread started, then the reset in constructRoadmap): a store that takes effect before the reset is lost *)
+Theorem reset_after_spawn_refuted : brun None [BStore 5; BInit] = None.
+Proof. reflexivity. Qed.
